@@ -385,6 +385,28 @@ func VerifyFunc(w *World, fi *FuncInfo) (res *FuncResult) {
 	if sp == nil {
 		sp = &FuncSpec{Key: fi.Key, Loops: map[int]*LoopSpec{}, AtCall: map[string]*CallSpec{}, Wraps: map[string]bool{}, WrapsIf: map[string]ast.Expr{}}
 	}
+	// anchors: every loop and call site named by the contract must exist in the current source
+	nloops := 0
+	calls := map[string]bool{}
+	ast.Inspect(fi.Decl.Body, func(n ast.Node) bool {
+		switch v := n.(type) {
+		case *ast.ForStmt, *ast.RangeStmt:
+			nloops++
+		case *ast.CallExpr:
+			calls[exprText(v.Fun)] = true
+		}
+		return true
+	})
+	for ord := range sp.Loops {
+		if ord > nloops {
+			panic(engineErr("contract names loop %d but the function has %d loops (anchor lost)", ord, nloops))
+		}
+	}
+	for callee := range sp.AtCall {
+		if !calls[callee] {
+			panic(engineErr("contract names the call site %q which no longer exists (anchor lost)", callee))
+		}
+	}
 	fr := x.newFrame(fi)
 	x.frames = []*Frame{fr}
 	st := newState()
